@@ -163,9 +163,18 @@ pub fn reference_session(lines: &[&str], predicate: fn(&str) -> bool) -> Result<
                 };
                 let mut last = Ok(None);
                 for f in &forms {
+                    // hook H3: a form that recurses without end (some line combinations define one)
+                    // must not exhaust the stack of the harness
+                    ruschm::interpreter::verif_set_fuel(20_000);
                     last = it.eval(f.chars());
+                    ruschm::interpreter::verif_set_fuel(u64::MAX);
                     if last.is_err() {
                         break;
+                    }
+                }
+                if let Err(e) = &last {
+                    if format!("{}", e).contains("verif: evaluation fuel exhausted") {
+                        panic!("NON-TERMINATING-SESSION");
                     }
                 }
                 match last {
@@ -248,6 +257,63 @@ pub fn split_sessions() -> Vec<Vec<String>> {
     out
 }
 
+/// one session: reference transcript, binary transcript, verdict (runs in a worker process)
+pub fn judge_session(lines: &[&str]) -> serde_json::Value {
+    let want = reference_session(lines, complete);
+    if matches!(&want, Err(p) if p.contains("NON-TERMINATING-SESSION")) {
+        return json!({"excluded": "a form of the session does not terminate (outside the claim)"});
+    }
+    let got = binary_session(lines);
+    let class = match &got {
+        Ok(t) if t.stderr.is_empty() => "session without error",
+        Ok(_) => "session with error message",
+        Err(_) => "binary failed",
+    };
+    let ok = match (&want, &got) {
+        (Ok(w), Ok(g)) => w == g,
+        _ => false,
+    };
+    let mut known = serde_json::Value::Null;
+    if !ok {
+        // defect model: the same session under the naive completeness predicate
+        let naive = reference_session(lines, complete_naive);
+        if let (Ok(n), Ok(g)) = (&naive, &got) {
+            if n == g && lines.iter().any(|l| l.contains('"') || l.contains("#\\") || l.contains('|')) {
+                known = json!("repl-counts-parens-inside-tokens");
+            }
+        }
+    }
+    json!({"ok": ok, "want": format!("{:?}", want), "got": format!("{:?}", got), "class": class, "hash": hash_of(&format!("{:?}", got)), "known": known, "excluded": null})
+}
+
+/// worker process entry: `mc worker C18` — one JSON request {lines} per line
+pub fn worker(_args: &[String]) {
+    crate::supervise::worker_init(60_000, 16 << 30);
+    let stdin = std::io::stdin();
+    let mut line = String::new();
+    let mut n = 0u64;
+    loop {
+        line.clear();
+        match stdin.read_line(&mut line) {
+            Ok(0) | Err(_) => break,
+            Ok(_) => {}
+        }
+        let j: serde_json::Value = match serde_json::from_str(line.trim()) {
+            Ok(j) => j,
+            Err(_) => break,
+        };
+        let lines: Vec<String> = j["lines"].as_array().map(|a| a.iter().map(|x| x.as_str().unwrap_or("").to_string()).collect()).unwrap_or_default();
+        crate::supervise::case_begin(n);
+        let r = crate::drive::on_fresh_thread(move || {
+            let ls: Vec<&str> = lines.iter().map(|s| s.as_str()).collect();
+            judge_session(&ls)
+        });
+        crate::supervise::case_end();
+        n += 1;
+        crate::supervise::emit(&r.to_string());
+    }
+}
+
 pub fn run(ctx: &Ctx) -> i32 {
     if !std::path::Path::new(&bin()).exists() {
         eprintln!("MACHINERY-ERROR: {} not built", bin());
@@ -289,21 +355,34 @@ pub fn run(ctx: &Ctx) -> i32 {
         },
     );
     // ---- (2) sessions through the built binary ----
-    let max_lines = if ctx.thorough() { 4 } else { 3 };
+    let max_lines = 3;
     let kf = FRAGMENTS.len() as u64;
     let mut soffs = vec![0u64];
     for l in 1..=max_lines {
         soffs.push(soffs[l - 1] + kf.pow(l as u32));
     }
     let n_sess = *soffs.last().unwrap();
-    let splits = split_sessions();
+    let mut splits = split_sessions();
+    if ctx.thorough() {
+        // every 4-line session over the first 18 fragments
+        for i in 0..18u64.pow(4) {
+            let mut v = vec![];
+            let mut x = i;
+            for _ in 0..4 {
+                v.push(FRAGMENTS[(x % 18) as usize].to_string());
+                x /= 18;
+            }
+            v.reverse();
+            splits.push(v);
+        }
+    }
     let total = n_sess + splits.len() as u64;
     let (so, sp) = (&soffs, &splits);
     let sacc = par::sweep(
         total,
         8,
-        |_| (),
-        |_, acc: &mut Acc, i| {
+        |_| crate::supervise::ProcWorker::new(vec!["C18".into()], 300),
+        |w, acc: &mut Acc, i| {
             let owned: Vec<String>;
             let lines: Vec<&str> = if i < n_sess {
                 let l = so.iter().rposition(|o| *o <= i).unwrap() + 1;
@@ -315,30 +394,25 @@ pub fn run(ctx: &Ctx) -> i32 {
             acc.evals += 1;
             acc.transitions += lines.len() as u64;
             acc.count("sessions", 1);
-            let want = reference_session(&lines, complete);
-            let got = binary_session(&lines);
-            acc.distinct_hash(hash_of(&format!("{:?}", got)));
-            acc.outcome_class(match &got {
-                Ok(t) if t.stderr.is_empty() => "session without error",
-                Ok(_) => "session with error message",
-                Err(_) => "binary failed",
-            });
-            if i % (total / 5 + 1) == 3 {
-                acc.sample(n_pred + i, json!({"lines": lines, "transcript": format!("{:?}", got)}));
-            }
-            let ok = match (&want, &got) {
-                (Ok(w), Ok(g)) => w == g,
-                _ => false,
+            // reference and binary run in a worker process that is replaced every few hundred
+            // sessions (each session's interpreter is never freed by the implementation)
+            let j = match w.request(&json!({"lines": lines})) {
+                Ok(j) => j,
+                Err(e) => json!({"ok": false, "want": "a transcript", "got": format!("the session killed its worker process: {}", e), "class": "worker died", "hash": 0, "known": null, "excluded": null}),
             };
-            if !ok {
-                // defect model: the same session under the naive completeness predicate
-                let naive = reference_session(&lines, complete_naive);
-                let known = match (&naive, &got) {
-                    (Ok(n), Ok(g)) if n == g && lines.iter().any(|l| l.contains('"') || l.contains("#\\") || l.contains('|')) => Some("repl-counts-parens-inside-tokens"),
-                    _ => None,
-                };
+            if let Some(why) = j["excluded"].as_str() {
+                acc.exclude(why, || lines.join(" / "));
+                return;
+            }
+            acc.distinct_hash(j["hash"].as_u64().unwrap_or(0));
+            acc.outcome_class(j["class"].as_str().unwrap_or(""));
+            if i % (total / 5 + 1) == 3 {
+                acc.sample(n_pred + i, json!({"lines": lines, "transcript": j["got"]}));
+            }
+            if j["ok"] != true {
+                let known = if j["known"].is_string() { Some("repl-counts-parens-inside-tokens") } else { None };
                 acc.mismatch(
-                    Mismatch { idx: n_pred + i, case: format!("[session] {}", lines.join("\n")), expected: format!(": {:?}", want), observed: format!("{:?}", got), payload: json!({"kind": "session", "lines": lines}) },
+                    Mismatch { idx: n_pred + i, case: format!("[session] {}", lines.join("\n")), expected: format!(": {}", j["want"].as_str().unwrap_or("")), observed: j["got"].as_str().unwrap_or("").to_string(), payload: json!({"kind": "session", "lines": lines}) },
                     known,
                 );
             }
@@ -352,7 +426,7 @@ pub fn run(ctx: &Ctx) -> i32 {
             tier: ctx.tier_name(),
             seed: ctx.seed,
             exhaustive: true,
-            rule: format!("(1) the REPL's completeness test (hook verif_check_bracket_closed) on every string of length <= {} over {:?} against the reference predicate; (2) every sequence of <= {} input lines from {} fragments (definitions, values, unspecified values, failing forms, two forms on one line, halves of forms, a comment / string / character / |symbol| containing a parenthesis, a lone closing parenthesis) plus every two-line split of four forms at every token gap, fed to the built binary over a pipe; transcript (stdout and stderr lines) compared with the reference REPL; transitions = input lines", maxlen, ALPHABET, max_lines, FRAGMENTS.len()),
+            rule: format!("(1) the REPL's completeness test (hook verif_check_bracket_closed) on every string of length <= {} over {:?} against the reference predicate; (2) every sequence of <= {} input lines from {} fragments (thorough: also every 4-line sequence over the first 18) (definitions, values, unspecified values, failing forms, two forms on one line, halves of forms, a comment / string / character / |symbol| containing a parenthesis, a lone closing parenthesis) plus every two-line split of four forms at every token gap, fed to the built binary over a pipe; transcript (stdout and stderr lines) compared with the reference REPL; transitions = input lines", maxlen, ALPHABET, max_lines, FRAGMENTS.len()),
             bounds: json!({"predicate_strings": n_pred, "max_len": maxlen, "sessions": total, "max_lines": max_lines}),
             assumptions: vec!["the reference REPL evaluates submissions through the library interface on one interpreter (the property's own differential); terminal mode (line editing, history, Ctrl-C) is not driven".into()],
             wall_s: ctx.elapsed(),
